@@ -201,7 +201,7 @@ def make_absset(eng, st, name):
             ob.meta["members"] = mm
         return ob.meta["members"][ent.addr]
 
-    def setm(s, ent, val):
+    def setm(s, ent, val, quiet=False):
         ob = s.obj(r)
         mm = dict(ob.meta["members"])
         for g, b in alts(ent):
@@ -214,7 +214,8 @@ def make_absset(eng, st, name):
         ob = s.obj(r)
         ob.meta = dict(ob.meta)
         ob.meta["members"] = mm
-        s.touch(ob)
+        if not quiet:
+            s.touch(ob)
 
     def m_add(eng_, s, recv, args, kwargs):
         setm(s, args[0], BT)
@@ -234,9 +235,43 @@ def make_absset(eng, st, name):
 
     def contains(eng_, s, c, item):
         return eng_.ok(s, P.mk_bool(member(s, item)))
+    def as_list(eng_, s, setref):
+        """the members as an abstract list: entries in scope whose membership holds, plus arbitrary other members"""
+        ob = s.obj(setref)
+        state_ref = ob.meta.get("state")
+        known = [R(a) for a in ob.meta["members"] if a in s.heap]
+
+        def gen(e2, s2):
+            if state_ref is None:
+                raise OutOfSubset("iteration over an abstract set that is not attached to a state")
+            e = _fresh_entry(e2, s2, state_ref, name + ".member")
+            setm(s2, e, BT, quiet=True)      # materialising an unknown member is not a write of the set
+            return [(s2, e)]
+        lst = B.new_abslist(eng_, s, gen, name=name + ".items", known=known)
+
+        def flt(e2, s2, v):
+            c = member(s2, v)
+            if z3.is_false(c) or not e2.feasible(s2, c):
+                return []
+            s2.assume(c)
+            return [(s2, True)]
+        lo = s.obj(lst)
+        lo.meta["filters"].append(flt)
+        lo.meta["must"] = [(member(s, k), k) for k in known]
+        s.axiom(z3.Implies(zor(*[member(s, k) for k in known]), lo.meta["nonempty"]))
+        return lst
+
+    def truth(s, setref):
+        ob = s.obj(setref)
+        if "nonempty_rest" not in ob.meta:
+            ob.meta = dict(ob.meta)
+            ob.meta["nonempty_rest"] = z3.Bool(P.fresh_name(name + ".rest_nonempty"))
+        return zor(ob.meta["nonempty_rest"], *[m for m in ob.meta["members"].values()])
     o.meta["methods"] = {"add": m_add, "discard": m_discard, "clear": m_clear, "remove": m_discard}
     o.meta["contains"] = contains
     o.meta["member"] = member
+    o.meta["iter"] = as_list
+    o.meta["truth"] = truth
     return r
 
 
@@ -356,6 +391,9 @@ def make_state(eng, st, providers):
     st.axiom(z3.Real("state._last_changed_time") > 0)
     st.axiom(z3.Real("clock.now") > 0)
     r = st.alloc(HObj("obj", scls, fields=fields, meta={"tag": "state", "entries": []}))
+    for nm_ in ("_changeset_storage", "_dirtyset"):
+        so_ = st.obj(fields[nm_])
+        so_.meta["state"] = r
     fields["prioritize"] = st.alloc(HObj("opaque", None, meta={"tag": "prioritize", "call": _prioritize_call}))
     # the two indexes as *open* dicts: bindings touched by the code under verification are tracked, the rest of each
     # map is unknown (any key may be bound to some other entry)
@@ -574,6 +612,7 @@ def fx_world(eng, st, pname):
     install_split_contract(eng)
     install_runnable_models(eng)
     install_event_models(eng)
+    install_sorted_model(eng)
     from . import fixtures
     fixtures.install_normalize_path_model(eng)
     if eng.cur_lemma.opts.get("fixed_clock"):
@@ -1539,3 +1578,21 @@ def _reauth_call(eng, st, fv, args, kwargs):
     st.effects.append(Effect("app", "reauthenticate", [], {}, None, tag=BT))
     res.append((st, (VAL, NONE)))
     return res
+
+
+def h_sorted_abslist(eng, st, seq, args, kwargs):
+    """sorted(<abstract collection>, key=k): the same elements in an order in which k is non-decreasing.
+    The key function is remembered; a loop over the result that leaves at an element e may assume that every
+    element known to be in the collection with a strictly smaller key was visited before and fell through."""
+    src = args[0]
+    if isinstance(src, R) and "iter" in st.obj(src).meta:
+        src = st.obj(src).meta["iter"](eng, st, src)
+    o = st.obj(src)
+    new = HObj("abslist", "list", meta=dict(o.meta))
+    new.meta["sorted_key"] = kwargs.get("key")
+    st.note("sorted(): a permutation of its argument ordered by the key (model of the builtin)")
+    return eng.ok(st, st.alloc(new))
+
+
+def install_sorted_model(eng):
+    eng.handlers["sorted_abslist"] = h_sorted_abslist
